@@ -76,7 +76,9 @@ TARGETED = [
     [("get", ["a"], "k")], [("set", ["a"], "k", 5)], [("del", [], "b")],
     # an edit through the library's path functions in between, then the mapping again
     [("rmcli", "a.b.c"), ("get", [], "a")], [("rmcli", "a.b.c"), ("get", ["a"], "b")], [("rmcli", "a.b.c"), ("set", [], "a", 5), ("get", [], "a")],
-    [("rmcli", "a.p"), ("get", ["a"], "p")], [("setcli", "a.z", "7"), ("get", ["a"], "z")], [("setcli", "zz", "7"), ("get", [], "zz"), ("del", [], "zz")],
+    [("rmcli", "a.p"), ("get", ["a"], "p")], [("rmcli", "nx.y"), ("get", [], "nx")], [("rmcli", "nx.y.z"), ("get", [], "nx")],
+    [("setcli", "@x", "5"), ("scopeset", "nk", 6), ("scopeget", "nk")], [("setcli", "@x", "5"), ("scopedel", "x"), ("scopeget", "x")],
+    [("rmcli", "@x"), ("scopeset", "nk", 6)], [("setcli", "@nk2", "5"), ("scopedel", "nk2")], [("setcli", "a.z", "7"), ("get", ["a"], "z")], [("setcli", "zz", "7"), ("get", [], "zz"), ("del", [], "zz")],
     [("get", ["a", "b", "c"], "e")], [("set", ["a", "b", "c"], "e", 5)], [("del", ["a", "b", "c"], "e")], [("get", ["a", "b"], "f")],
 ]
 
@@ -253,6 +255,28 @@ def run_history(ctx, text, ops, info, reqs_out):
                 ctx.fail({"clause": "rebind-target", "op": op[0]}, {**inp, "after": r["after"]},
                          f"after rebinding the let-bound body the text reads {ta!r}, expected {want!r}")
             continue
+        if op[0] in ("scopeset", "scopedel") and r["res"] == "ok" and not r["after"].startswith("<rebuild"):
+            # the rebuilt text shows exactly the bindings the scope mapping reports
+            try:
+                ch = cstread.let_chain(r["after"])
+            except cstread.Duplicate:
+                ch = None
+            try:
+                ch_before = cstread.let_chain(r["before"])
+            except cstread.Duplicate:
+                ch_before = None
+            names_in_text = set()
+            for lay in (ch or []):
+                names_in_text |= {k for k in cstread.plain(lay) if isinstance(k, str)}
+            kname = op[1][1:-1] if op[1].startswith('"') and op[1].endswith('"') and len(op[1]) > 1 else op[1]
+            present = kname in names_in_text
+            # (with several layers the scope mapping is ONE of them: judged only where there is at most one)
+            if (op[0] == "scopeset") != present and "." not in op[1] and ch_before is not None and len(ch_before) <= 1 \
+                    and ch is not None and len(ch) <= 1:
+                ctx.fail({"clause": "scope-text", "op": op[0]}, {**inp, "after": r["after"]},
+                         f"after {op!r} the scope mapping {'has' if op[0] == 'scopeset' else 'no longer has'} {op[1]!r} "
+                         f"but the let layers of the text {'do not show it' if op[0] == 'scopeset' else 'still show it'}: {r['after']!r}")
+                continue
         if op[0] in ("scopeget", "scopeset", "scopedel") or tb is None or isinstance(tb, tuple):
             if r["res"] not in ("ok", "key", "type", "value"):
                 ctx.fail({"clause": "exception-class", "class": r["res"], "op": op[0]}, inp, f"{op!r} raised {r['exc']}")
